@@ -44,6 +44,7 @@ pub struct HistCounters {
     pub drops_never_polled: u64,
     pub envelope_violations_sent: u64,
     pub messages_ending_in_empty_frame: u64,
+    pub reconnects_same_identity: u64,
     pub max_overtaken: u64,
     pub probes: u64,
 }
@@ -203,6 +204,15 @@ pub async fn run(o: &HistOpts) -> HistOutcome {
             if joins_left > 0 {
                 acts.push((4, 0));
             }
+            // a peer whose messages were all delivered goes away and comes back under its
+            // identity (its next messages continue the same sequence)
+            if o.late_joiners > 0 && !o.saturate && !o.leavers {
+                for (i, p) in ps.iter().enumerate() {
+                    if err_budget == 0 && !p.ended && p.to_send > 0 && p.peer.conn.held() == 0 && p.complete_unread == 0 && p.peer.conn.unread() == 0 && !p.partial_out && r.chance(1, 12) {
+                        acts.push((5, i));
+                    }
+                }
+            }
             if all_done(&ps) && joins_left == 0 {
                 // only polling is left
                 acts.retain(|a| a.0 == 3 || a.0 == 2);
@@ -282,6 +292,20 @@ pub async fn run(o: &HistOpts) -> HistOutcome {
                         _ => {
                             p.peer.conn.end_inbound(EndKind::Reset);
                             c.peers_reset += 1;
+                        }
+                    }
+                }
+                5 => {
+                    ps[i].peer.conn.close_full(EndKind::Eof);
+                    let ident = format!("h{i}");
+                    match Peer::attach_backend(backend.clone(), peer_type_for(ty), Some(ident.as_bytes())).await {
+                        Ok(np) => {
+                            ps[i].peer = np;
+                            c.reconnects_same_identity += 1;
+                        }
+                        Err(e) => {
+                            findings.push(Finding { signature: pfx("reconnect-rejected"), message: format!("peer {i} reconnecting under its identity: {e}") });
+                            break 'outer;
                         }
                     }
                 }
